@@ -85,3 +85,29 @@ Proof. vm_compute. reflexivity. Qed.
 Example C10_rerun_stopped :
   should_rerun (mkCfg false false false false (Some (Some 3)) None [Some SFail]) [SFail] = RFalse.
 Proof. vm_compute. reflexivity. Qed.
+
+(* ---- over the traversal model, for EVERY graph, initial pool population and schedule ---- *)
+From I2N Require Import Model.Traverse Model.TraverseRun Proofs.TraverseInv Proofs.TraverseUid.
+
+(* repeated executions carry distinct identifiers: two executions of the same node (copy) whose class of bridged
+   copies contains no object-creation node get strictly increasing identifiers ... *)
+Theorem C10_identifiers_strictly_increase : forall g p sched a b e1 e2 w1 w2 i u1 u2 l1 l2,
+  let ess := snd (run_schedule g (init_state g p) sched) in
+  (a < b)%nat -> nth_error ess a = Some e1 -> nth_error ess b = Some e2 ->
+  In (EStart w1 i u1 false l1) e1 -> In (EStart w2 i u2 false l2) e2 -> nonobjc g i -> (u1 < u2)%nat.
+Proof. exact uids_increase. Qed.
+Print Assumptions C10_identifiers_strictly_increase.
+
+(* ... (any two executions are in different atomic sections: a section starts at most one, as its last event) ... *)
+Theorem C10_one_start_per_section : forall g p sched evs,
+  In evs (snd (run_schedule g (init_state g p) sched)) -> last_start evs.
+Proof. exact one_start_per_section. Qed.
+Print Assumptions C10_one_start_per_section.
+
+(* ... and every execution - reported or not - leaves one entry on its class (its result, or the pending placeholder),
+   which is what makes the try count: its identifier is below the number of entries afterwards *)
+Theorem C10_every_execution_leaves_an_entry : forall g p sched evs w i u l,
+  let r := run_schedule g (init_state g p) sched in
+  In evs (snd r) -> In (EStart w i u false l) evs -> nonobjc g i -> (u < Lc g (fst r) i)%nat.
+Proof. exact every_execution_leaves_an_entry. Qed.
+Print Assumptions C10_every_execution_leaves_an_entry.
